@@ -11,3 +11,4 @@ import PyXABProofs.Props.C09
 import PyXABProofs.Props.C10
 import PyXABProofs.Props.C11
 import PyXABProofs.Props.C12
+import PyXABProofs.Props.C17
